@@ -58,7 +58,12 @@ func (fr *Frame) exec(in ssa.Instruction) {
 		p := fr.get(x.Addr)
 		fr.nilCheck(x, p)
 		t := x.Addr.Type().Underlying().(*types.Pointer).Elem()
+		fr.writeKinds = p.Kinds
+		if fr.writeKinds == nil {
+			fr.writeKinds = cellKinds(t)
+		}
 		fr.checkWrite(x, p.Ref, p.Off, IntLit(sizeOf(t)))
+		fr.writeKinds = nil
 		fr.st.storeKinds(t, p.Kinds, p.Ref, p.Off, canonVal(fr.get(x.Val)))
 	case *ssa.MakeSlice:
 		fr.makeSlice(x)
@@ -97,6 +102,7 @@ func (fr *Frame) exec(in ssa.Instruction) {
 		n := Fresh("maplen", IntS)
 		fr.assume(Le(IntLit(0), n))
 		fr.st.storeCell("int", m.S, IntLit(0), n)
+		fr.mapInvCheck(x, x.Map.Type(), fr.get(x.Value))
 		fr.u.note("map contents are abstracted (lookups return unconstrained values)")
 	case *ssa.Lookup:
 		fr.lookup(x)
@@ -112,7 +118,7 @@ func (fr *Frame) exec(in ssa.Instruction) {
 		for _, r := range x.Results {
 			vs = append(vs, canonVal(fr.get(r)))
 		}
-		fr.rets = append(fr.rets, retEdge{cond: fr.reach, vals: vs, st: fr.st.clone(), nf: len(fr.u.facts), ord: fr.u.v.siteOrdinal(fr.fn, x, "ret")})
+		fr.rets = append(fr.rets, retEdge{cond: fr.reach, vals: vs, st: fr.st.clone(), nf: len(fr.u.facts), ord: fr.u.v.siteOrdinal(fr.fn, x, "ret"), env: fr.snapshotEnv(), blk: fr.blk})
 	case *ssa.Jump:
 		fr.addEdge(fr.blk.Succs[0], fr.reach)
 	case *ssa.If:
@@ -210,6 +216,18 @@ func (fr *Frame) checkWrite(in ssa.Instruction, ref, off, n *Term) {
 	top := fr.topFrame()
 	env := top.contractEnv(top.params, nil, top.entry, top.entry)
 	for _, m := range c.Modifies {
+		if m.Any != "" {
+			all := len(fr.writeKinds) > 0
+			for _, k := range fr.writeKinds {
+				if !strings.HasSuffix(k, "@"+m.Any) {
+					all = false
+				}
+			}
+			if all {
+				alts = append(alts, True)
+			}
+			continue
+		}
 		t, err := modTargetCovers(env, m, ref, off, n)
 		if err != nil {
 			fr.u.errs = append(fr.u.errs, fmt.Sprintf("%s: modifies %s: %v (contract.attach)", m.Where, m.Src, err))
@@ -954,12 +972,17 @@ func (fr *Frame) lookup(x *ssa.Lookup) {
 		fr.assume(f)
 	}
 	fr.u.note("map contents are abstracted (lookups return unconstrained values)")
+	ok := Fresh("mapok", BoolS)
+	fr.assume(Implies(Eq(c.S, IntLit(0)), Not(ok)))
+	hasInv := fr.mapInvAssume(x.X.Type(), v, ok)
 	if x.CommaOk {
-		ok := Fresh("mapok", BoolS)
-		fr.assume(Implies(Eq(c.S, IntLit(0)), Not(ok)))
 		r := mergeVals(ok, v, zeroVal(mt.Elem()))
 		fr.set(x, &Val{K: VTuple, T: x.Type(), El: []*Val{r, {K: VScalar, T: types.Typ[types.Bool], S: ok}}})
 		return
+	}
+	if hasInv {
+		// a missing key yields the zero value, about which the invariant says nothing
+		v = mergeVals(ok, v, zeroVal(mt.Elem()))
 	}
 	fr.set(x, v)
 }
@@ -978,6 +1001,9 @@ func (fr *Frame) next(x *ssa.Next) {
 		fr.assume(Implies(Eq(coll.S, IntLit(0)), Not(ok)))
 		k = freshVal(tup.At(1).Type(), "iterk")
 		v = freshVal(tup.At(2).Type(), "iterv")
+		if _, isMap := coll.T.Underlying().(*types.Map); isMap {
+			fr.mapInvAssume(coll.T, v, ok)
+		}
 	}
 	for _, val := range []*Val{k, v} {
 		for _, f := range validFacts(val, fr.st.Next, nil) {
@@ -1096,4 +1122,69 @@ func iteLitMax(n *Term) (int64, bool) {
 		}
 	}
 	return 0, false
+}
+
+func (fr *Frame) snapshotEnv() map[ssa.Value]*Val {
+	m := make(map[ssa.Value]*Val, len(fr.env))
+	for k, v := range fr.env {
+		m[k] = v
+	}
+	return m
+}
+
+// ---- map value invariants (mapinv clauses)
+
+func mapTypeString(t types.Type) string {
+	return types.TypeString(t, func(p *types.Package) string { return p.Name() })
+}
+
+func (fr *Frame) mapInvs(t types.Type) []MapInv {
+	c := fr.contract
+	if c == nil && fr.u != nil {
+		c = fr.u.contract
+	}
+	if c == nil {
+		return nil
+	}
+	ts := mapTypeString(t)
+	var out []MapInv
+	for _, m := range c.MapInvs {
+		if m.Type == ts {
+			out = append(out, m)
+		}
+	}
+	return out
+}
+
+func (fr *Frame) mapInvTerm(m MapInv, v *Val) (*Term, error) {
+	env := fr.contractEnv(fr.params, nil, fr.st, fr.entry)
+	env.vars["$v"] = cvOfVal(canonVal(v))
+	return env.evalBool(m.C.E)
+}
+
+// mapInvAssume: the invariant holds for a value read from the map (when present).
+func (fr *Frame) mapInvAssume(t types.Type, v *Val, present *Term) bool {
+	ms := fr.mapInvs(t)
+	for _, m := range ms {
+		tm, err := fr.mapInvTerm(m, v)
+		if err != nil {
+			fr.u.errs = append(fr.u.errs, fmt.Sprintf("%s: mapinv %s: %v (contract.attach)", m.C.Where, m.C.Src, err))
+			continue
+		}
+		fr.assume(Implies(present, tm))
+		fr.u.note("mapinv " + m.Type + ": assumed at lookups; relies on every assignment to such maps being checked (see evidence) and on the objects reachable from stored values not being modified after insertion")
+	}
+	return len(ms) > 0
+}
+
+// mapInvCheck: the invariant must hold for a value being stored.
+func (fr *Frame) mapInvCheck(in ssa.Instruction, t types.Type, v *Val) {
+	for _, m := range fr.mapInvs(t) {
+		tm, err := fr.mapInvTerm(m, v)
+		if err != nil {
+			fr.u.errs = append(fr.u.errs, fmt.Sprintf("%s: mapinv %s: %v (contract.attach)", m.C.Where, m.C.Src, err))
+			continue
+		}
+		fr.oblig(in, "mapinv", tm, "map value invariant: "+m.C.Src)
+	}
 }
